@@ -639,6 +639,55 @@ def run(ck):
                         inp_, got_, [0.0, J2, -J2])
     except Exception as e:
         ck.fail("raises:remove_cutoff_coupling", "remove_cutoff_coupling under a units context raised %r" % (e,), {})
+    # a frequency axis copied while a units context is open: the copy is the same axis, read in any units
+    try:
+        from quantarhei import FrequencyAxis
+        for u_make in ("1/cm", "eV", "int"):
+            for u_copy in ("1/cm", "THz", "int"):
+                m.current_units["energy"] = "1/fs"; m._in_eu_count = 0; m._in_energy_units_context = False
+                with energy_units(u_make):
+                    fa_ = FrequencyAxis(float(qr.convert(10000.0, "1/cm", to=u_make)), 20, float(qr.convert(10.0, "1/cm", to=u_make)))
+                with energy_units(u_copy):
+                    fc_ = fa_.copy()
+                with energy_units("1/cm"):
+                    got_ = [float(fc_.start), float(fc_.step), float(numpy.asarray(fc_.data)[-1])]
+                    want_ = [float(fa_.start), float(fa_.step), float(numpy.asarray(fa_.data)[-1])]
+                ck.case(("faxis-copy", u_make, u_copy), nontrivial=(u_copy != "int"), accessor="FrequencyAxis.copy")
+                if max(abs(a_ - b_) / abs(b_) for a_, b_ in zip(got_, want_)) > 1e-12 or abs(want_[0] - 10000.0) > 1e-6:
+                    ck.fail("accessor:FrequencyAxis.copy", "a frequency axis copied inside energy_units(%r) is not the axis it was copied from" % u_copy,
+                            {"made_in": u_make, "copied_in": u_copy}, got_, want_)
+    except Exception as e:
+        ck.fail("raises:FrequencyAxis.copy", "raised %r" % (e,), {})
+    # frequency_units (an alias of the energy contexts) nested in energy contexts: every kind of units the manager keeps is as before afterwards
+    try:
+        from quantarhei import frequency_units
+        for outer_ in ("1/cm", "eV", None):
+            m.current_units["energy"] = "1/fs"; m._in_eu_count = 0; m._in_energy_units_context = False
+            before_ = {k_: m.get_current_units(k_) for k_ in ("energy", "frequency", "length")}
+            f0_ = float(m.convert_frequency_2_internal_u(1.0))
+            try:
+                if outer_:
+                    with energy_units(outer_):
+                        with frequency_units("THz"):
+                            pass
+                else:
+                    with frequency_units("THz"):
+                        pass
+            except Exception as e_:
+                ck.fail("raises:frequency_units", "frequency_units context raised %r" % (e_,), {"outer": outer_})
+            after_ = {k_: m.get_current_units(k_) for k_ in ("energy", "frequency", "length")}
+            ck.case(("frequency-units-context", outer_), nontrivial=bool(outer_), accessor="frequency_units")
+            try:
+                f1_ = float(m.convert_frequency_2_internal_u(1.0))
+            except Exception as e_:
+                f1_ = repr(e_)
+            if after_ != before_ or f1_ != f0_:
+                ck.fail("contexts:frequency-units", "after a frequency_units context (inside energy_units(%r)) the units the manager keeps are not what they were" % outer_,
+                        {"outer": outer_}, [after_, f1_], [before_, f0_])
+                for k_, v_ in before_.items():
+                    m.current_units[k_] = v_
+    except Exception as e:
+        ck.fail("raises:frequency-units-context", "raised %r" % (e,), {})
     # contexts of the other managed units (lengths): nesting, exceptions, an energy context inside a length context
     try:
         from quantarhei import length_units
